@@ -5,7 +5,7 @@ import numpy as np
 from .. import core, gen
 
 ID = 'C02'
-FOUNDATIONS = ['harness.foundation.pybody']   # the compositions of Model/C02.lean are tied to the current morph.py bodies
+FOUNDATIONS = ['harness.foundation.pybody', 'harness.foundation.cscalar']   # see each foundation module's docstring
 LEVEL = 'proof'
 RULE = ('corpus; subm: all 65536 pairs of int8 and of uint8 values (both tiers) and boundary-dense random pairs of the '
         'wider dtypes and bool; operators: random 1-3 D images x {bool, uint8, uint16, uint32, uint64, int8, int16, int32, int64} '
